@@ -253,7 +253,7 @@ def run_c08(ctx):
         ops += [{"m": "size", "args": [t]}, {"m": "shallow_size", "args": [t]}, {"m": "traverse", "args": [t, g.r.choice([k, len(pts), len(pts) + 3])]},
                 {"m": "insert", "args": [t, repl, g.r.choice([k, k, len(pts) + 1])]}, {"m": "contains", "args": [t, needle]}, {"m": "container", "args": [t, needle]},
                 {"m": "substitute", "args": [t, needle, repl]}, {"m": "equals", "args": [t, needle]}, {"m": "shallow_eq", "args": [t, needle]}, {"m": "to_string", "args": [t]},
-                {"m": "find", "args": [t, needle, 0, g.r.randint(0, 6)]}, {"m": "find", "args": [t, g.r.choice([{"k": "int", "v": 0}, {"k": "bool", "v": True}, {"k": "float", "v": 0}, {"k": "list", "v": []}]), g.r.randint(0, 2), g.r.randint(0, 5)]}]
+                {"m": "contains", "args": [t, needle, g.r.choice([1, 2, 7])]}, {"m": "find", "args": [t, needle, 0, g.r.randint(0, 6)]}, {"m": "find", "args": [t, g.r.choice([{"k": "int", "v": 0}, {"k": "bool", "v": True}, {"k": "float", "v": 0}, {"k": "list", "v": []}]), g.r.randint(0, 2), g.r.randint(0, 5)]}]
     cs = [{"id": "itemapi-%03d" % j, "api": "item", "ops": ops[j:j + 500]} for j in range(0, len(ops), 500)]
     run_events(ctx, "item_api", cs, spec="TraceApi")
 
@@ -366,6 +366,19 @@ def run_c09(ctx):
             s[f] = s[f][:3] + [mk() for _ in range(12)]
         cs.append(c)
     run_events(ctx, "deep_stacks", cs)
+    # results of up to a hundred thousand elements (lengths around 2^16; the envelope of C01 is widened for this stage)
+    cs = []
+    fb = gen.f2b
+    for n in ((65535, 65536, 70000) if q else (2001, 32767, 32768, 65535, 65536, 65537, 70000, 100000, 131072)):
+        for name in ("BOOLVECTOR.ONES", "INTVECTOR.ZEROS", "FLOATVECTOR.ONES", "FLOATVECTOR.SINE", "INTVECTOR.FROMINT") if q else \
+                ("BOOLVECTOR.ONES", "BOOLVECTOR.ZEROS", "INTVECTOR.ONES", "INTVECTOR.ZEROS", "FLOATVECTOR.ONES", "FLOATVECTOR.ZEROS", "FLOATVECTOR.SINE", "BOOLVECTOR.RAND", "INTVECTOR.RAND", "FLOATVECTOR.RAND"):
+            if name not in ctx.registry:
+                continue
+            s = gen.empty_state()
+            s["int"] = [n, 0, 9, 4]; s["float"] = [fb(0.5), fb(1.0), fb(0.25), fb(2.0)]
+            s["exec"] = [ins(name), ins(name.split(".")[0] + ".LENGTH")]
+            cs.append({"id": "longres-%d-%s" % (n, name), "pre": s, "acts": [{"a": "steps", "k": 2}]})
+    run_events(ctx, "long_results", cs, env={"PV_ENV_SIZE": "200000"})
     # sums and means whose partial sums leave the range in which every integer is a float
     cs = []
     for k, v in enumerate([[16777216, 1, 1], [1, 1, 16777216], [16777217, 16777217], [33554432, 3, 1, 0], [-16777216, -1, -1], [2147483647, -2147483647, 9, 9, 9],
@@ -422,7 +435,9 @@ def run_c19(ctx):
     ops = []
     for i in range(150 if q else 20000):
         t = nested_tree(gi, gi.r.randint(1, 14))
-        pat = gi.r.choice([{"k": "int", "v": 0}, {"k": "bool", "v": True}, {"k": "float", "v": 0}, {"k": "list", "v": []}, {"k": "id", "v": "q"}, {"k": "ins", "v": "NOOP"}, {"k": "ivec", "v": []}])
+        if i % 5 == 0:      # values of the one literal type no instruction creates: loop counters
+            t = lst([{"k": "index", "v": {"cur": 0, "dst": 3}}, t, {"k": "int", "v": 7}, {"k": "index", "v": {"cur": 1, "dst": 1}}, {"k": "bool", "v": True}])
+        pat = gi.r.choice([{"k": "index", "v": {"cur": 0, "dst": 0}},{"k": "int", "v": 0}, {"k": "bool", "v": True}, {"k": "float", "v": 0}, {"k": "list", "v": []}, {"k": "id", "v": "q"}, {"k": "ins", "v": "NOOP"}, {"k": "ivec", "v": []}])
         ops.append({"m": "find", "args": [t, pat, gi.r.choice([0, 0, 1, 3]), gi.r.randint(0, 7)]})
     run_events(ctx, "item_find", [{"id": "find-%03d" % j, "api": "item", "ops": ops[j:j + 500]} for j in range(0, len(ops), 500)], spec="TraceApi")
     # the same through whole runs: nested records (a record inside a record), non-finite floats among the literals, growth caps
@@ -437,7 +452,7 @@ def run_c19(ctx):
         s["cfg"]["growth_cap"] = g.r.choice([3, 4, 6, 500]); s["cfg"]["max_prog_points"] = g.r.choice([100, 2, 5])
         inner = {"k": "ivec", "v": [g.r.choice([1, 5, 9]) for _ in range(g.r.randint(1, 4))]}
         outer = {"k": "ivec", "v": [3, g.r.choice([5, 9])]}
-        s["exec"] = [lst([inner, ins("LIST.ADD"), outer, ins("LIST.ADD"), I(0), ins("LIST.GET")])]
+        s["exec"] = [lst([inner, ins("LIST.ADD"), outer, ins("LIST.ADD")] + [I(0), ins("LIST.GET")] * (1 + i % 3))]
         cs.append({"id": "listrun-%05d" % i, "pre": s, "acts": [{"a": "copy_to_code"}, {"a": "steps", "k": 40}, {"a": "run_from_start"}]})
     run_events(ctx, "list_runs", cs)
 
@@ -564,6 +579,18 @@ def run_c18_instr(ctx):
                 s["exec"] = [ins("GRAPH.NODE*STATESWITCH")]
                 cases.append({"id": "stateswitch-%03d" % k, "pre": s, "acts": [{"a": "step"}]}); k += 1
     cases += same_graph_cases()
+    # history queries read the snapshot at the requested depth - also when the graphs above it are unrelated to it (started
+    # with GRAPH.ADD, other node ids)
+    old = {"nodes": [{"id": 1, "st": 4}, {"id": 2, "st": 6}], "edges": [{"d": 2, "in": [{"o": 1, "w": F["h"]}]}]}
+    top = {"nodes": [{"id": 5, "st": 1}, {"id": 6, "st": 2}], "edges": [{"d": 6, "in": [{"o": 5, "w": F["one"]}]}]}
+    for k, (name, ints, vecs) in enumerate([("GRAPH.EDGE*HISTORY", [1, 2, 1], []), ("GRAPH.EDGE*HISTORY", [0, 6, 5], []), ("GRAPH.EDGE*HISTORY", [1, 6, 5], []), ("GRAPH.EDGE*HISTORY", [2, 2, 1], []),
+                                            ("GRAPH.NODE*HISTORY", [1, 1], []), ("GRAPH.NODE*HISTORY", [1, 2], []), ("GRAPH.NODE*HISTORY", [0, 5], []), ("GRAPH.NODE*HISTORY", [1, 5], []),
+                                            ("GRAPH.NODES*HISTORY", [1], [[4, 6]]), ("GRAPH.NODES*HISTORY", [0], [[1, 2]]), ("GRAPH.NODES*HISTORY", [2], [[4]])]):
+        for stack in ([top, old], [top, top, old], [old, top]):
+            s = gen.empty_state()
+            s["nid"] = 7; s["graph"] = stack; s["int"] = ints + [9]; s["ivec"] = vecs + [[7]]
+            s["exec"] = [ins(name)]
+            cases.append({"id": "histdepth-%02d-%d" % (k, len(stack) * 10 + (stack[0] is old)), "pre": s, "acts": [{"a": "step"}]})
     # a graph of several thousand nodes: the queries answer with ALL the model's nodes, however many
     for k, n in enumerate((5003,) if q else (4999, 5003, 6001)):
         G = {"nodes": [{"id": j, "st": 1 + (j % 2)} for j in range(1, n + 1)], "edges": [{"d": 1, "in": [{"o": j, "w": F["h"]} for j in range(2, n + 1, 2)]}]}
@@ -707,6 +734,19 @@ def run_c06(ctx):
             else:
                 s["exec"] = [lst([{"k": "ivec", "v": list(range(n))}, ins("INTVECTOR.LOOP"), lst([ins("VERIF.PROBE"), ins("INTEGER.POP")]), I(99)])]
             cs.append({"id": "cutloop-%d-%s" % (k, loop), "pre": s, "acts": [{"a": "copy_to_code"}, {"a": "steps", "k": lim + 3}, {"a": "run_from_start"}]})
+    # whole runs of loops that let the state grow by hundreds of items in total (never by more than a few per step), and of
+    # loops over bodies of hundreds of points (one item each): the growth cap is about items gained in ONE step
+    for k, n in enumerate((200, 600)):
+        s = gen.empty_state()
+        s["exec"] = [lst([I(n), ins("INDEX.DEFINE"), ins("EXEC.LOOP"), ins("INDEX.CURRENT"), I(99)])]
+        cs.append({"id": "growloop-%d" % n, "pre": s, "acts": [{"a": "copy_to_code"}, {"a": "steps", "k": 1003}, {"a": "run_from_start"}]})
+    wide = lst([lst([I(j)] * 24) for j in range(25)])          # 626 points, no list longer than 25
+    for k, loop in enumerate(("EXEC.LOOP", "EXEC.DUP", "INTVECTOR.LOOP", "EXEC.K")):
+        s = gen.empty_state()
+        s["cfg"]["push_limit"] = 40
+        s["exec"] = [lst(([I(2), ins("INDEX.DEFINE")] if loop == "EXEC.LOOP" else [{"k": "ivec", "v": [1, 2]}] if loop == "INTVECTOR.LOOP" else []) +
+                         [ins(loop), lst([ins("VERIF.PROBE"), ins("CODE.QUOTE"), wide, ins("CODE.POP")]), I(99)])]
+        cs.append({"id": "widebody-%s" % loop, "pre": s, "acts": [{"a": "copy_to_code"}, {"a": "steps", "k": 43}, {"a": "run_from_start"}]})
     run_events(ctx, "cut_loops", cs)
     # bodies that use the stack the loop takes its operands from (vector literals, INTVECTOR.POP / DUP inside INTVECTOR.LOOP;
     # INDEX.DEFINE / nested loops inside EXEC.LOOP): the elements still come in order, once each
@@ -798,7 +838,8 @@ def run_c07(ctx):
     # instruction of the running set, lower-case spellings of instructions, digits first, dots and stars; each is used
     # unbound, defined, used bound, quoted, redefined
     cases = []
-    for k, nm in enumerate(["INTEGER.SQUARE", "FLOAT.SCALE", "CODE.NOSUCH", "EXEC.x", "NAME.", "integer.dup", "noop", "Exec.If", "x", "x.y", "a*b", "7up", "GRAPH.NODE*"]):
+    for k, nm in enumerate(["INTEGER.SQUARE", "FLOAT.SCALE", "CODE.NOSUCH", "EXEC.x", "NAME.", "integer.dup", "noop", "Exec.If", "x", "x.y", "a*b", "7up", "GRAPH.NODE*",
+                            "INT", "FLOAT", "BOOL", "INTEGER", "BOOLVECTOR", "INT]", "[", "]", "true", "False", "nil"]):
         text = "( %s 5 %s INTEGER.DEFINE %s NAME.QUOTE %s 6 NAME.QUOTE %s INTEGER.DEFINE %s NAME.QUOTE %s CODE.DEFINITION )" % ((nm,) * 7)
         cases.append({"id": "nametext-%02d" % k, "pre": gen.empty_state(), "acts": [{"a": "parse", "text": text}, {"a": "steps", "k": 30}]})
     # a name bound (EXEC.DEFINE / CODE.DEFINE) to ANOTHER bound name stays bound to that name: later definitions of the
@@ -917,7 +958,7 @@ def random_stack_history(g, elem, n, pool=None):
         elif k < 0.97:
             ops.append({"m": "push_vec", "args": [[el() for _ in range(r.randint(0, 3))]]}); size += 2
         else:
-            ops.append({"m": r.choice(["flush", "from_vec"]), "args": [[el() for _ in range(r.randint(0, 3))]]} if r.random() < 0.5 else {"m": "flush", "args": []}); size = 2
+            ops.append({"m": r.choice(["clone_from", "from_vec"]), "args": [[el() for _ in range(r.randint(0, 3))]]} if r.random() < 0.5 else {"m": "flush", "args": []}); size = 2
         size = max(0, min(size, 40))
     return ops
 
@@ -1127,6 +1168,15 @@ def run_c20(ctx):
             rb = gen.f2b(float(g.r.randint(1, 6))) + g.r.choice([-2, -1, 1])
         ops = [{"m": "find_neighbors", "args": [n, d, g.r.randint(0, n - 1), rb]}]
         cs.append({"id": "topo-%05d" % i, "api": "topo", "ops": ops})
+    # exact d-th powers for every d up to 8 (a floating-point root may land on either side of the integer)
+    for k, (n, d) in enumerate([(243, 5), (1024, 5), (3125, 5), (3124, 5), (3126, 5), (729, 6), (4096, 6), (2187, 7), (128, 7), (256, 8), (6561, 8), (32, 5), (64, 6), (81, 4), (625, 4), (2401, 4)] if q else
+                               [(b ** d + o, d) for d in (3, 4, 5, 6, 7, 8, 9, 10) for b in (2, 3, 4, 5, 6, 7) for o in (-1, 0, 1) if 1 <= b ** d + o <= 20000]):
+        cs.append({"id": "topo-power-%d-%d" % (n, d), "api": "topo", "ops": [{"m": "find_neighbors", "args": [n, d, n // 2, gen.f2b(rad)]} for rad in (1.0, 1.5)] +
+                   [{"m": "decompose_index", "args": [n - 1, 2, d]}]})
+    for k, (idx, edge, d) in enumerate([(0, 65536, 4), (5, 65536, 4), (70000, 65536, 4), (3, 256, 8), (300, 256, 8), (3, 16, 16), (3, 4, 32), (3, 2, 64), (1, 2, 64), (0, 1, 70), (7, 65535, 4), (100000, 7132, 5), (9, 2, 63)]):
+        cs.append({"id": "topo-bigcube-%d" % k, "api": "topo", "ops": [{"m": "decompose_index", "args": [idx, edge, d]}]})
+    for k, (n, d, i) in enumerate([(10, 64, 3), (100, 64, 3), (64, 64, 0), (65, 64, 64), (2, 64, 1), (100, 63, 3), (10, 65, 3)]):
+        cs.append({"id": "topo-64dims-%d" % k, "api": "topo", "ops": [{"m": "find_neighbors", "args": [n, d, i, gen.f2b(rad)]} for rad in (1.0, 1.5)]})
     # dimension counts beyond 32 bits (encoded; see harness us()): no neighbourhood, and no endless search for the edge length
     for k, (n, d, i) in enumerate([(5, -1000, 0), (2, -1000, 1), (100, -1001, 7), (36, -1003, 35), (5, -1, 0), (9, -2, 3)]):
         cs.append({"id": "topo-hugedims-%d" % k, "api": "topo", "ops": [{"m": "find_neighbors", "args": [n, d, i, gen.f2b(1.5)]}]})
@@ -1146,7 +1196,7 @@ def parser_model(ctx, maxtoks, maxpoints):
 WS_CHARS = [" ", "\t", "\n", "\r", "\u000b", "\u000c", "\u0085", "\u00a0", "\u1680", "\u2003", "\u2028", "\u3000", "  "]
 ODD_TOKENS = ["(", ")", "(", ")", "INT[1,", "FLOAT[1.5,", "BOOL[1,", "INT[,", "INT[", "INT[]", "INT[1,2]", "INT[1,2}", "INT[1,,2]", "INT[\u00e9", "INT[1\u00e9", "BOOL[", "BOOL[1,0,true,false]", "BOOL[TRUE]",
               "FLOAT[", "FLOAT[1.5,-0.25]", "FLOAT[1e3,nan]", "FLOAT[x]", "\u00e9]", "\u00e9", "na\u00efve", "\u4e2d\u6587", "(x", "x)", "()", "1", "-1", "+1", "007",
-              "2147483647", "2147483648", "-2147483648", "-2147483649", "1.5", "-0.125", ".5", "5.", "1e3", "1E-2", "inf", "-Infinity", "NaN", "nan", "infinit", "infinity", "Infinity", "INFINITY", "+infinity", "+inf", "-inf", "+NaN", "-nan", "iNf", "nAn", "infinityy", "INTEGER.SQUARE", "FLOAT.SCALE", "CODE.NOSUCH", "EXEC.", ".EXEC", "NAME.x", "BOOLEAN.and", "FLOAT[1.5,NaN,2.5]", "FLOAT[nan]", "FLOAT[inf,-inf]", "1e400", "-1e400", "1e-400", "0x10", "1_000", "+.5e3", "-1E-3", "1e+2", "e5", ".e5", ".", "1.2.3", "1e", "--1",
+              "2147483647", "2147483648", "-2147483648", "-2147483649", "1.5", "-0.125", ".5", "5.", "1e3", "1E-2", "inf", "-Infinity", "NaN", "nan", "infinit", "infinity", "Infinity", "INFINITY", "+infinity", "+inf", "-inf", "+NaN", "-nan", "iNf", "nAn", "infinityy", "INT", "FLOAT", "BOOL", "INT]", "INTEGER", "INTEGER.SQUARE", "FLOAT.SCALE", "CODE.NOSUCH", "EXEC.", ".EXEC", "NAME.x", "BOOLEAN.and", "FLOAT[1.5,NaN,2.5]", "FLOAT[nan]", "FLOAT[inf,-inf]", "1e400", "-1e400", "1e-400", "0x10", "1_000", "+.5e3", "-1E-3", "1e+2", "e5", ".e5", ".", "1.2.3", "1e", "--1",
               "TRUE", "FALSE", "true", "INTEGER.+", "CODE.QUOTE", "VERIF.PROBE", "VERIF.NOOP*WITH*A*NAME*LONGER*THAN*ANY*BUILTIN*INSTRUCTION", UMLAUT_INSTR, CUSTOM_INSTRS[3], CUSTOM_INSTRS[4], CUSTOM_INSTRS[5], CUSTOM_INSTRS[6], CUSTOM_INSTRS[7], CUSTOM_INSTRS[10], CUSTOM_INSTRS[11], CUSTOM_INSTRS[12], CUSTOM_INSTRS[13], "Integer.Max", "verif.myinstruction", "VERIFSQUAR", "2verif", "GRAPH.NODE*PREDECESSORS", "EXEC.DO*COUNT", "integer.+", "foo", "foo-bar", "x1", "[1,2]", "BOOLVECTOR.AND", "NOOP"]
 
 
@@ -1207,6 +1257,16 @@ def run_c03(ctx):
             cs.append({"id": "pair-%s-%d" % (name, j), "pre": pre, "acts": [{"a": "parse", "text": text % (name, o)}]})
             cs.append({"id": "riap-%s-%d" % (name, j), "pre": pre, "acts": [{"a": "parse", "text": text % (o, name)}]})
     run_events(ctx, "token_pairs", cs)
+    # an instruction set that has been in use (parsing, lookups) and is then extended: the new names are instructions from
+    # then on, whatever their length
+    cs = []
+    late = ["VERIF.LATE*ADDITION*WITH*A*NAME*LONGER*THAN*ALL*THE*OTHERS*TOGETHER", "VERIF.LATE", "\u041f\u041e\u0417\u0414\u041d\u041e.\u0414\u041e\u0411\u0410\u0412\u041b\u0415\u041d\u041d\u0410\u042f*\u0418\u041d\u0421\u0422\u0420\u0423\u041a\u0426\u0418\u042f"]
+    pre = dict(base); pre["exec"] = []
+    acts = [{"a": "parse", "text": "( 1 INTEGER.DUP foo VERIF.PROBE )"}]
+    for nm in late:
+        acts += [{"a": "add_instr", "name": nm}, {"a": "parse", "text": "( %s 2 ( x %s ) ) %s" % (nm, nm, nm)}, {"a": "steps", "k": 3}]
+    cs.append({"id": "lateadd", "pre": pre, "acts": acts})
+    run_events(ctx, "late_additions", cs)
 
 
 def run_c11(ctx):
@@ -1258,7 +1318,7 @@ def run_c11(ctx):
             w = g.r.choice(WS_CHARS)
             text = "( alpha ( beta gamma%s ) 7 ( %sdelta INTEGER.+ ) omega%s )" % (w, g.r.choice(WS_CHARS), g.r.choice(WS_CHARS))
         cs.append({"id": "srctree-%06d" % i, "pre": gen.empty_state(), "acts": [{"a": "parse", "text": text}, {"a": "roundtrip", "src": True}, {"a": "print"}]})
-    for n in ((60, 127, 128, 129, 200, 300) if q else (1, 2, 55, 56, 100, 126, 127, 128, 129, 130, 200, 255, 256, 257, 300, 500, 1000)):
+    for n in ((60, 127, 128, 129, 200, 300, 511, 512, 513, 700) if q else (1, 2, 55, 56, 100, 126, 127, 128, 129, 130, 200, 255, 256, 257, 300, 500, 511, 512, 513, 1000, 1023, 1024, 1025, 2000)):
         cs.append({"id": "deeptree-%04d" % n, "pre": gen.empty_state(), "acts": [{"a": "roundtrip", "deep": n}]})
     run_events(ctx, "source_texts", cs)
     # every instruction next to every kind of atom (the printed neighbours of a token must not change how it reads)
@@ -1408,7 +1468,7 @@ def run_c13(ctx):
         ops.append({"m": "random_int_vector_stats", "args": [5, lo, hi, 6 * 30 * (hi - lo)]})
     for n in [0, 1, 3, N, -1, -100]:
         for mean in (0.0, 1.5, -2.0, float("inf"), float("nan")):
-            for sd in (0.0, 0.5, 2.0, -1.0, -0.0, float("inf"), float("nan"), float("-inf")):
+            for sd in (0.0, 0.5, 2.0, -1.0, -0.0, float("inf"), float("nan"), float("-inf"), 1e-40, 1.4e-45, 1.1754944e-38, 3.4028235e38, -1e-40):
                 for _ in range(max(1, draws // 5)):
                     ops.append({"m": "random_float_vector", "args": [n, fb(mean), fb(sd)]})
     cs = [{"id": "genvec", "api": "gen", "ops": ops}]
@@ -1516,7 +1576,7 @@ def run_c14(ctx):
     for i in range(40 if q else 1500):
         s = g.state(depth=2)
         # drawn from small sets, so that equal queries (valid and invalid ones) meet in every order
-        s["int"] = [g.r.choice([4, 9, 16, 17]), g.r.choice([0, 3, 8]), g.r.choice([0, 1, 2, 3, 70]), g.r.randint(0, 3)] + s["int"]
+        s["int"] = [g.r.choice([4, 9, 16, 17, 64, 100]), g.r.choice([0, 3, 8]), g.r.choice([0, 1, 2, 3, 63, 64, 65, 70]), g.r.randint(0, 3)] + s["int"]
         s["float"] = [gen.f2b(g.r.choice([0.0, 1.0, 1.5, 2.0]))] + s["float"]
         s["exec"] = [ins(g.r.choice(NEIGH))]
         cases.append({"id": "detnb-%05d" % i, "pre": s, "steps": 2})
@@ -1916,7 +1976,8 @@ PLANS = {
     # (the outcome of a whole run is C02's subject; in these stages it is the loop state / the pending quote that is compared)
     "C06": dict(run=run_c06, judge=dict(extra_owner=lambda j, stage: stage == "cut_loops" and j.get("subj") == "run")),
     # (a name misread by the parser never becomes a name: in stage name_texts that is C07's "for all names n")
-    "C07": dict(run=run_c07, judge=dict(extra_owner=lambda j, stage: (stage == "pending_quote" and j.get("subj") == "run") or (stage == "name_texts" and j.get("subj") == "parse"))),
+    # (... and whatever touches the NAME.QUOTE flag in C07's own stages: "exactly the next encountered name ... and is then cleared")
+    "C07": dict(run=run_c07, judge=dict(extra_owner=lambda j, stage: (stage == "pending_quote" and j.get("subj") == "run") or (stage == "name_texts" and j.get("subj") == "parse") or "quote" in j.get("fields", []))),
     "C08": dict(run=run_c08),
     "C09": dict(run=run_c09),
     "C10": dict(run=run_c10, judge=dict(frame=True)),
